@@ -46,6 +46,13 @@ def lib_episode(rng):
         src = ("(define-library (shlib) (import (scheme base)) (export shval twice) (begin (define n %d) (define (shval) (set! n (+ n 1)) n) "
                "(define (twice q) (* 2 q))))" % k)
         uses = ["(shval)", "(twice 4)", "(shval)"]
+    if rng.random() < 0.4:
+        # a library body that defines MACROS named like procedures other programs define and call (f, shared, my-m, twice):
+        # a macro of a library body is private to that body
+        nm = rng.choice(["f", "shared", "car", "v", "my-m"])
+        src = ("(define-library (shlib) (import (scheme base)) (export shval twice) (begin (define-syntax %s (syntax-rules () ((%s a) (* a 100)))) "
+               "(define (shval) (%s %d)) (define (twice q) (* 2 q))))" % (nm, nm, nm, k))
+        uses = ["(shval)", "(twice 4)", "(shval)"]
     return [("R", "shlib", src), "(import (scheme base) (shlib))"], uses
 
 
